@@ -139,7 +139,13 @@ def run(ctx):
         if isinstance(st, ast.Delete):  # del buffer[:n]
             return any(isinstance(t, ast.Subscript) and is_buf(t.value) and isinstance(t.slice, ast.Slice) and t.slice.lower is None
                        and t.slice.upper is not None for t in st.targets)
+        if part is not None and isinstance(st, ast.Assign) and any(is_buf(t) for t in st.targets) and isinstance(st.value, ast.Name) \
+                and st.value.id == part[3]:
+            return True  # head, sep, rest = buffer.partition(CRLF) ... buffer = rest
         return isinstance(st, ast.Assign) and any(is_buf(t) for t in st.targets) and any(is_buf(x) for x in ast.walk(st.value))
+
+    from .c05 import partition_idiom
+    part = partition_idiom(ctx, R, lin)
 
     # the variable the protocol patterns are applied to
     interp = set()
@@ -171,13 +177,13 @@ def run(ctx):
     k = 0
     for st in walk_no_nested(lin.node):
         if isinstance(st, ast.Assign) and any(isinstance(t, ast.Name) and t.id in vs for t in st.targets):
-            if isinstance(st.value, ast.Name) and st.value.id in vs:
+            if isinstance(st.value, ast.Name) and st.value.id in vs and not (part is not None and st.value.id == part[1]):
                 continue  # a copy
             k += 1
             if isinstance(st.value, ast.Constant) and st.value.value in (b"", "", None):
                 ctx.holds("K4", "%s: %s (nothing to interpret)" % (lin.qualname, norm(st)))
                 continue
-            if not any(is_buf(x) for x in ast.walk(st.value)):
+            if not any(is_buf(x) for x in ast.walk(st.value)) and not (part is not None and isinstance(st.value, ast.Name) and st.value.id == part[1]):
                 ctx.violation("K4", lin, "line-not-from-buffer", "the interpreted line is not taken from the read buffer: %s" % norm(st), node=st)
                 continue
             blk = st._parent
